@@ -30,6 +30,7 @@ def run(db, chk) -> None:
     m = db.mod(TD)
     _summary(db, chk, m)
     _extract(db, chk, m)
+    _defaults(db, chk, m)
     _compare(db, chk, m)
     _classes(db, chk, m)
 
@@ -53,6 +54,11 @@ def _summary(db, chk, m):
     fns = sorted(k.split("\x1f")[1] for e in gb for k in e["cols"] if "\x1f" in k)
     chk.ob(rule, "events are aggregated per (cat, name) with exactly count and sum of dur", len(gb) == 1 and gb[0]["keys"] == ["cat", "name"] and fns == ["count", "sum"], where,
            found={"keys": [e["keys"] for e in gb], "functions": fns}, accepted={"keys": ["cat", "name"], "functions": ["count", "sum"]}, why="total_duration must be the SUM of the durations")
+    from ..specs.discipline import narrowing_casts
+    for c_ in ("counts", "total_duration"):
+        nc = narrowing_casts(R.col(c_))
+        chk.ob(rule, f"{c_} stays a signed, full-width number (differences test - control are formed from it)", not nc, where, found=nc or "no narrowing / unsigned cast", accepted="no unsigned or fixed narrow dtype",
+               why="in unsigned arithmetic every negative difference wraps (-2 -> 254): decreased names are filed under 'increased'")
     check_term(chk, rule, "counts = number of events per (cat, name)", where, R.col("counts"), [T.agg("count", T.col(OPS, "dur"), ctx, keys)],
                "rename table agreement dur_count -> counts")
     check_term(chk, rule, "total_duration = sum of dur per (cat, name)", where, R.col("total_duration"), [T.agg("sum", T.col(OPS, "dur"), ctx, keys)],
@@ -106,6 +112,33 @@ def _extract(db, chk, m):
         chk.ob(rule, f"[{dev}] device filter: a predicate over the stream alone (CPU: stream == -1, GPU: every other stream)", tt == want, where, found=tt if tt is not None else [T.show(c)[:100] for c in rest], accepted=want)
         chk.ob(rule, f"[{dev}] selection only (no reordering / new columns)", R.order is None and not R.cols, where, found={"order": T.show_order(R.order), "cols": list(R.cols)}, accepted="row selection")
     chk.floor(rule, 9)
+
+
+def _defaults(db, chk, m):
+    """the documented defaults: 'the first rank' / 'the first iteration' are the smallest ones (numeric order)"""
+    rule = "C17.R3-selection"
+    for q, what, src in (("LabeledTrace.ranks", "ranks", "traces"), ("LabeledTrace.iterations", "iterations", "iteration")):
+        f = m.func(q)
+        rets = [n for n in ast.walk(f) if isinstance(n, ast.Return) and n.value is not None]
+        ok = len(rets) == 1 and H.match("sorted($$x)", H.expand(f, rets[0].value)) is not None and src in ast.unparse(H.expand(f, rets[0].value))
+        rev = len(rets) == 1 and isinstance(rets[0].value, ast.Call) and any(k.arg in ("reverse", "key") for k in rets[0].value.keywords)
+        verdict = bool(ok and not rev)
+        if not ok and what == "iterations":
+            # not sorted at the point of use: acceptable only if the frame was put in NUMERIC order where it is built
+            exf = m.func("LabeledTrace._extract_iterations")
+            sorts = [c for c in ast.walk(exf) if isinstance(c, ast.Call) and isinstance(c.func, ast.Attribute) and c.func.attr in ("sort_values", "sort_index")]
+            numeric = [c for c in sorts if c.func.attr == "sort_values" and "iteration" in ast.unparse(c) and not any(k.arg == "ascending" for k in c.keywords)]
+            verdict = True if numeric and len(sorts) == len(numeric) else (False if sorts else None) if len(rets) == 1 else None
+            if not sorts and len(rets) == 1 and "sort" not in ast.unparse(f):
+                verdict = False               # no ordering anywhere: symbol-table (insertion) order
+        chk.ob(rule, f"{what}() lists the available {what} in ascending numeric order (the default selection takes its first element)", verdict, m.loc(f),
+               found=[ast.unparse(r.value)[:120] for r in rets], accepted=f"sorted(<{src} numbers>)",
+               why="extract_ops takes [:1] as the default: an order by symbol string puts ProfilerStep#10 before ProfilerStep#9")
+    ex = m.func("LabeledTrace._extract_iterations")
+    lam = [n for n in ast.walk(ex) if isinstance(n, ast.Lambda)]
+    okn = any(H.match("lambda $s: int($s.replace('ProfilerStep#', ''))", l) is not None for l in lam)
+    chk.ob(rule, "iteration numbers are the integers parsed from the ProfilerStep#<n> symbols", okn, m.loc(ex), found=[ast.unparse(l) for l in lam], accepted="int(symbol.replace('ProfilerStep#', ''))",
+           why="string-valued iteration numbers sort lexicographically")
 
 
 def _one_selection(chk, rule, where, dev, want, R):
